@@ -21,14 +21,14 @@ TECHNIQUE = ('small-scope enumeration of save/load configurations + stateless ch
 RULE = ('save/load: row counts 1..12 and {99,100,101} (T: 1..120, 999,1000,1001) x row lengths 1..7 x stride 1..8 x element rank '
         '1..3 x dtypes {int8,int32,int64,float32,float64,bool} x compression {0,1,9} x every ordered key subset of <=3 rows '
         '(on 5-row arrays) x ndarray input x old-style file; load_as_concatenated: all length vectors in {1..3}^k, k=2,3 '
-        '(+ two k=4) x {xtc,h5} x stride {1,2,3} x atom selection x lengths hint x processes {1..4} x ALL completion orders; '
+        '(+ two k=4) x {xtc,h5} x stride {1,2,3} x atom selection x lengths hint x processes {1..4} x ALL completion orders; arrays returned earlier in a shard are re-read after all later loads; '
         'state=(configuration, schedule); non-trivial = ragged array with unequal rows and stride>1 / schedule with a '
         'non-default completion order')
 ASSUMPTIONS = ['the simulated pool executes tasks in-process in the chosen order and returns results in input order (as '
                'multiprocessing.Pool does); the real pool is additionally run free for processes 1..4',
                'a one-row RaggedArray is documented to load back as the bare row (numpy array); compared as such',
                'bit-identical comparison (tobytes + dtype) everywhere']
-GUARDS = {'ragged_stride': 100, 'keys_subset': 50, 'padding_boundary': 3, 'nondefault_order': 200, 'real_pool': 8,
+GUARDS = {'held_results': 20, 'ragged_stride': 100, 'keys_subset': 50, 'padding_boundary': 3, 'nondefault_order': 200, 'real_pool': 8,
           'no_hint': 50, 'atom_selection': 50, 'frame_kwarg': 5, 'old_style': 5}
 DTYPES = ('int8', 'int32', 'int64', 'float32', 'float64', 'bool')
 
@@ -297,6 +297,16 @@ def check_bulk(case, ctx, real_pool=False):
 
         bound = 99 if len(lengths) <= 3 else 2
         explore.dfs_choices(run, bound, on_exec)
+        # keep one returned array alive: later loads (other files, same total shape) must not change it
+        held = getattr(ctx, '_held', None)
+        if held is not None:
+            with simpool.installed() as S:
+                S.reset([])
+                try:
+                    Lh, xh = call()
+                    held.append((xh, want.tobytes(), dict(case)))
+                except Exception:
+                    pass
         if len(outcomes) > 1:
             ctx.violation('bulk:order_dependent', case, '%d distinct outcomes over completion orders (%r)' % (len(outcomes), case))
         if case.get('frame'):
@@ -326,6 +336,7 @@ def run_shard(sh, ctx):
         ctx.sample(cases[i])
     elif kind == 'bulk':
         cfgs = bulk_configs(tier)
+        ctx._held = []
         for j in range(i, len(cfgs), 12):
             c = dict(cfgs[j], kind='bulk')
             if j % 5 == 0:
@@ -333,6 +344,15 @@ def run_shard(sh, ctx):
             if j % 9 == 0:
                 c['frame'] = True
             check_bulk(c, ctx)
+        # results returned earlier in this history must still hold what they held when they were returned
+        for xh, wantb, c0 in ctx._held:
+            ctx.ev()
+            ctx.guard('held_results')
+            if xh.tobytes() != wantb:
+                ctx.violation('bulk:earlier_result_changed_by_later_load', c0,
+                              'an array returned by an earlier load_as_concatenated call no longer equals the concatenation of its files after later loads (%r)' % (c0,))
+                break
+        ctx._held = None
         ctx.sample(c)
     else:
         cfgs = bulk_configs(tier)
